@@ -30,6 +30,7 @@ type Config struct {
 	NoisyLeader bool               `json:"noisyLeader,omitempty"` // the side traffic goes to the block producer (the model's reference), followers stay quiet
 	SideMean    float64            `json:"sideMean"`
 	PRestart    float64            `json:"pRestart"`
+	PRestartL   float64            `json:"pRestartLeader,omitempty"` // the block producer itself is stopped and reopened between blocks (everything it does afterwards is still judged against the model)
 	PCrash      float64            `json:"pCrash"`
 	CrashEnum   int                `json:"crashEnum"`             // number of blocks whose crash points are all enumerated
 	Metamorphic bool               `json:"metamorphic,omitempty"` // second pass: the same history with every failed tx removed must give the same results (C05)
